@@ -22,6 +22,7 @@ from datetime import datetime, timedelta
 
 from sim.runner import new_result, scratch_root
 from sim.seams import patched, import_typhon, fresh_dir
+from sim.seams import deterministic_tempnames
 from sim import digest_of
 from props import naming
 
@@ -144,7 +145,8 @@ class SimDisk:
             raise SimCrash()
         if "w" in mode or "a" in mode or "+" in mode:
             self._point("open_w")
-            self.log.append(f"open_w {os.path.basename(str(file))}")
+            self.log.append("open_w " + ("<fd>" if isinstance(file, int)
+                                         else os.path.basename(str(file))))
             raw = io.open(file, mode.replace("t", "") + "b"
                           if "b" not in mode else mode, buffering=0)
             f = _SimFile(self, raw)
@@ -158,7 +160,34 @@ class SimDisk:
             raise KeyboardInterrupt()       # Ctrl-C / SIGINT while the file is read
         return io.open(file, mode, *a, **kw)
 
+    @staticmethod
+    def _device(path):
+        p = os.path.abspath(str(path))
+        while not os.path.exists(p):
+            p = os.path.dirname(p)
+        return os.stat(p).st_dev
+
     def move(self, src, dst, *a, **kw):
+        if os.path.isfile(str(src)) and \
+                self._device(src) != self._device(os.path.dirname(os.path.abspath(str(dst)))):
+            # source and destination are on different file systems: shutil.move
+            # cannot rename, it copies into the (truncated) destination and
+            # removes the source afterwards - a sequence of steps with crash
+            # points, not an atomic replacement
+            self.log.append("move across file systems = copy + unlink")
+            with io.open(src, "rb") as f:
+                data = f.read()
+            self._point("open_w")
+            out = _SimFile(self, io.open(dst, "wb", buffering=0))
+            out.BUFSIZE = self.bufsize
+            for i in range(0, len(data), 4096):
+                out.write(data[i:i + 4096])
+            out.close()
+            self._point("remove")
+            os.remove(src)
+            if os.path.abspath(str(dst)) == self.cache_path:
+                self.unreadable = False
+            return dst
         self._point("rename")
         self.log.append("rename")
         r = _real_shutil.move(src, dst, *a, **kw)
@@ -1147,6 +1176,7 @@ def _diff(exp, got):
 # ------------------------------------------------------------------- the run
 def run_one(tape, only=None):
     _T["state"].restore()      # each run models a fresh interpreter
+    deterministic_tempnames()
     res = new_result()
     w = gen_workload(tape)
     wd = digest_of(w)
